@@ -9,6 +9,8 @@ PLAN = {
     "C05": [{"world": "chain", "share": 1, "probes": ["reorg-depth-1", "reorg-depth-2", "reorg-depth-3", "abandoned-tx-checked", "extended-own-tip-at-end"]}],
     "C06": [{"world": "chain", "share": 1, "probes": ["crash-scan-connect", "crash-scan-orphan-chain", "crash-scan-reorg", "recovery-wrote-to-disk"]}],
     "C07": [{"world": "chain", "share": 1, "probes": ["reorg-depth-1", "reorg-depth-2", "reorg-depth-3", "reorg-with-handback", "extended-own-tip-at-end"]}],
+    "C08": [{"world": "dpos", "share": 1, "probes": ["liveness-phase-passed"]}],
+    "C09": [{"world": "dpos", "share": 1, "probes": ["liveness-phase-passed"]}],
     "C10": [{"world": "store-trie", "share": 1,
              "probes": ["delete-absent-only", "trie-emptied", "died-in-commit", "historical-root-read"]}],
     "C11": [{"world": "store-proof", "share": 1,
